@@ -10,10 +10,10 @@ package main
 //   (c) outbound: two tasks sending concurrently through Send and SendRaw.
 
 import (
-	"strconv"
 	"bytes"
 	"context"
 	"fmt"
+	"strconv"
 	"strings"
 	"time"
 
@@ -31,8 +31,8 @@ func appMsg(seq int, fields ...string) []byte {
 func c04Pool() [][]byte {
 	return [][]byte{
 		appMsg(1, "11=x"),
-		rawFrom("PEER", "SELF", "0", 2, "112=see 10=abc"),         // a value ending in "10=" + three bytes, right before a delimiter
-		appMsg(3, "110=100", "210=abc", "58=10=000"),               // tags ending in 10 with three-byte values; a value that starts with 10=
+		rawFrom("PEER", "SELF", "0", 2, "112=see 10=abc"),               // a value ending in "10=" + three bytes, right before a delimiter
+		appMsg(3, "110=100", "210=abc", "58=10=000"),                    // tags ending in 10 with three-byte values; a value that starts with 10=
 		rawFrom("PEER", "SELF", "8", 4, "58="+strings.Repeat("L", 260)), // longer than one bufio fill when cut
 		appMsg(5, "58=\x0210=", "1010=10="),
 		// a field longer than bufio's 4096-byte buffer whose text carries "10=" exactly 4096 and 8192 bytes after the field start
@@ -41,33 +41,41 @@ func c04Pool() [][]byte {
 		// continues like a BeginString, and as text inside a value
 		appMsg(7, "58=FIX.4.2 is not supported", "448=FIXBROKER"),
 		rawFrom("PEER", "SELF", "3", 8, "58=unexpected 8=FIX.4.4 in the middle", "45=7"),
+		// index 8, only used on a second connection: correctly framed, but without a MsgType - the handler cannot
+		// dispatch it and, by design, ends that connection with an error (which is not "connection closed")
+		frameFields([]fld{{"49", "PEER"}, {"56", "SELF"}, {"34", "9"}, {"58", "no type"}}),
 	}
 }
 
+const c04Poison = 8
+
 type c04Obs struct {
-	seen      map[int][][]byte // connection index -> messages handed to its handler
-	overlap   bool
-	served    bool
-	serveErr  error
-	closed    []bool
-	written   [][]byte
-	handoff   []string
-	notes     string
-	stream    []byte
-	handed    []byte
+	seen     map[int][][]byte // connection index -> messages handed to its handler
+	overlap  bool
+	served   bool
+	serveErr error
+	closed   []bool
+	written  [][]byte
+	handoff  []string
+	notes    string
+	stream   []byte
+	handed   []byte
 }
 
 type c04Case struct {
-	Role    string  `json:"role"`
-	Buf     int     `json:"buf"`
-	Seq     []int   `json:"seq"`            // pool indices sent on connection 0
-	Seq2    []int   `json:"seq2,omitempty"` // second connection (acceptor only)
-	Cuts    []int   `json:"cuts"`           // cut positions in the concatenated stream; [-1] = one byte per read; [-2] = one message per read
-	Mode    string  `json:"mode"`           // "inbound" | "outbound"
-	StallMs int     `json:"stall_ms,omitempty"` // > 0: the peer pauses this long (virtual time) between the chunks
+	Role    string `json:"role"`
+	Buf     int    `json:"buf"`
+	Seq     []int  `json:"seq"`                // pool indices sent on connection 0
+	Seq2    []int  `json:"seq2,omitempty"`     // second connection (acceptor only)
+	Cuts    []int  `json:"cuts"`               // cut positions in the concatenated stream; [-1] = one byte per read; [-2] = one message per read
+	Mode    string `json:"mode"`               // "inbound" | "outbound"
+	StallMs int    `json:"stall_ms,omitempty"` // > 0: the peer pauses this long (virtual time) between the chunks
 	// OutFirst: this side writes one message of its own before the peer's bytes arrive (the write path arms its
 	// deadline; with a pause longer than that deadline the reader must still be there afterwards)
 	OutFirst bool `json:"out_first,omitempty"`
+	// OtherFirst: the second connection gets its bytes (and, if they end it, ends) one second before the first
+	// connection's bytes arrive
+	OtherFirst bool `json:"other_first,omitempty"`
 }
 
 func streamOf(seq []int) ([]byte, [][]byte) {
@@ -268,8 +276,15 @@ func c04Inbound(c c04Case, obs *c04Obs) {
 			_ = sendRaw0(rawFrom("SELF", "PEER", "D", 1, "11=own"))
 			vsched.Settle()
 		}
+		if c.OtherFirst && len(c.Seq2) > 0 {
+			s2, m2 := streamOf(c.Seq2)
+			conns[1].feed(chunksOf(s2, m2, []int{-2})...)
+			vsched.Settle()
+			time.Sleep(time.Second)
+			vsched.Settle()
+		}
 		feedChunks(conns[0], chunksOf(s1, m1, c.Cuts), c.StallMs)
-		if len(c.Seq2) > 0 {
+		if len(c.Seq2) > 0 && !c.OtherFirst {
 			s2, m2 := streamOf(c.Seq2)
 			conns[1].feed(chunksOf(s2, m2, []int{-2})...)
 		}
@@ -297,7 +312,14 @@ func c04CheckInbound(c c04Case, obs *c04Obs) (string, string) {
 	}
 	want := [][]int{c.Seq}
 	if len(c.Seq2) > 0 {
-		want = append(want, c.Seq2)
+		var w2 []int
+		for _, i := range c.Seq2 {
+			if i == c04Poison {
+				break // nothing is delivered from the message without a MsgType on
+			}
+			w2 = append(w2, i)
+		}
+		want = append(want, w2)
 		s1, d1 := c04Match(c, obs.seen, want)
 		if s1 == "" {
 			return "", ""
@@ -579,12 +601,12 @@ func idxOf(s []string, x string) int {
 }
 
 func c04Key(c c04Case) string {
-	return fmt.Sprintf("%s/%d/%v/%v/%v/%s/%d/%v", c.Role, c.Buf, c.Seq, c.Seq2, c.Cuts, c.Mode, c.StallMs, c.OutFirst)
+	return fmt.Sprintf("%s/%d/%v/%v/%v/%s/%d/%v/%v", c.Role, c.Buf, c.Seq, c.Seq2, c.Cuts, c.Mode, c.StallMs, c.OutFirst, c.OtherFirst)
 }
 
 func c04ScenarioOf(c c04Case, delay bool, bound int) *schedScenario {
 	var obs c04Obs
-	p := map[string]any{"role": c.Role, "buf": c.Buf, "seq": c.Seq, "seq2": c.Seq2, "cuts": c.Cuts, "mode": c.Mode, "stall_ms": c.StallMs, "out_first": c.OutFirst}
+	p := map[string]any{"role": c.Role, "buf": c.Buf, "seq": c.Seq, "seq2": c.Seq2, "cuts": c.Cuts, "mode": c.Mode, "stall_ms": c.StallMs, "out_first": c.OutFirst, "other_first": c.OtherFirst}
 	sc := &schedScenario{Name: "c04", Params: p, Strict: true, Delay: delay, Bound: bound, MaxSteps: 400000}
 	sc.Body = func() {
 		switch c.Mode {
@@ -646,7 +668,7 @@ func pints(p map[string]any, k string) []int {
 }
 
 func c04FromParams(name string, p map[string]any) *schedScenario {
-	c := c04Case{Role: pstr(p, "role"), Buf: pint(p, "buf"), Seq: pints(p, "seq"), Seq2: pints(p, "seq2"), Cuts: pints(p, "cuts"), Mode: pstr(p, "mode"), StallMs: pint(p, "stall_ms"), OutFirst: pbool(p, "out_first")}
+	c := c04Case{Role: pstr(p, "role"), Buf: pint(p, "buf"), Seq: pints(p, "seq"), Seq2: pints(p, "seq2"), Cuts: pints(p, "cuts"), Mode: pstr(p, "mode"), StallMs: pint(p, "stall_ms"), OutFirst: pbool(p, "out_first"), OtherFirst: pbool(p, "other_first")}
 	return c04ScenarioOf(c, true, 0)
 }
 
@@ -677,6 +699,8 @@ func runC04(R *vlib.Out) {
 			sig, detail = "panic-in-task:"+r.PanicTask, r.Panic
 		case r.Capped:
 			sig, detail = "livelock-or-step-cap", fmt.Sprint(r.Steps)
+		case r.MainBlocked:
+			sig, detail = "call-never-returned", "the scenario's main task is blocked for good in "+r.MainOp+leakedStr(r.Leaked)
 		default:
 			sig, detail = sc.Check(&r)
 		}
@@ -799,6 +823,17 @@ func runC04(R *vlib.Out) {
 					for _, cuts := range [][]int{nil, {-1}, {7, 40}} {
 						if !runDefault(c04Case{Role: role, Buf: buf, Seq: pr[0], Seq2: pr[1], Cuts: cuts, Mode: "inbound"}) {
 							goto done
+						}
+					}
+				}
+				// the other connection ends by an error of its own (a message the handler cannot dispatch) - before,
+				// or while, this connection's messages arrive: they are delivered all the same
+				for _, pr := range [][2][]int{{{0, 1}, {c04Poison}}, {{1, 2, 0}, {0, c04Poison, 1}}, {{4}, {c04Poison}}} {
+					for _, cuts := range [][]int{nil, {-1}} {
+						for _, first := range []bool{false, true} {
+							if !runDefault(c04Case{Role: role, Buf: buf, Seq: pr[0], Seq2: pr[1], Cuts: cuts, Mode: "inbound", OtherFirst: first}) {
+								goto done
+							}
 						}
 					}
 				}
